@@ -1129,6 +1129,44 @@ func ruleTagParserCases(c *Ctx, rule string) {
 		}
 		outs = append(outs, out{o, n})
 	}
+	// the function that answers "which name does the tag give the field" (func(reflect.StructField) string), if there
+	// is one: "" only where the tag gives none
+	for _, fn := range c.Closure(rule, "INF").Sorted() {
+		sig := fn.Signature
+		if fn.Parent() != nil || !c.P.InPkg(fn) || sig.Recv() != nil || sig.Params().Len() != 1 || sig.Results().Len() != 1 || !isNamed(sig.Params().At(0).Type(), "reflect", "StructField") || !tString(sig.Results().At(0).Type()) {
+			continue
+		}
+		for _, k := range []struct {
+			label, tag, want string
+			nonEmpty         bool
+		}{
+			{"no-tag", "", "", false},
+			{"name", `json:"abc"`, "abc", false},
+			{"dash", `json:"-"`, "", true},
+			{"dash-comma", `json:"-,"`, "-", false},
+			{"options-only", `json:",omitempty"`, "", false},
+			{"invalid-name", `json:"it's"`, "", false},
+			{"other-key", `yaml:"x"`, "", false},
+		} {
+			f := &aval{fields: map[int]*aval{
+				0: {k: constant.MakeString("F")}, 1: {k: constant.MakeString("")}, 2: {typ: []string{"struct"}},
+				3: {k: constant.MakeString(k.tag)}, 4: {k: constant.MakeInt64(0)}, 6: {k: constant.MakeBool(true)},
+			}}
+			in := &ncInterp{c: c, mem: map[ssa.Value]*aval{}, concrete: true}
+			r := in.run(fn, []*aval{f}, nil, 0)
+			if in.failed != "" || r == nil || r.k == nil || r.k.Kind() != constant.String {
+				c.R.OK(rule, core.FuncName(fn)+":not-evaluated", c.P.Pos(fn.Pos()), "the tag-name function could not be evaluated on the case "+k.label+": nothing concluded about it")
+				break
+			}
+			got := constant.StringVal(r.k)
+			okv := got == k.want
+			if k.nonEmpty {
+				okv = got != ""
+			}
+			c.R.Check(okv, rule, core.FuncName(fn)+":"+k.label, c.P.Pos(fn.Pos()), "the name the tag gives, as encoding/json reads it",
+				fmt.Sprintf("for the tag %q the tag-name function answers %q: a bare \"-\" does say something about the field (it is left out, and an embedded struct so tagged is not a source of promoted fields), an options-only or invalid name says nothing", k.tag, got))
+		}
+	}
 	for i, k := range cases {
 		got := outs[i]
 		ok := got.omit == k.wantOmit && (k.wantOmit || got.name == k.wantName)
